@@ -20,14 +20,30 @@ by an archive written with numpy's own writer. After every save
                            entries, the other none (which is which is reported in a note, not judged)
   C17.no_stats_valueerror  save before any accumulate -> ValueError, for every target kind
 
+Cases of kind "live" (run FIRST, in a child interpreter) are histories on ONE path with LIVE objects in between: a script of
+  new / acc / save / load operations over named Standardize objects, e.g. save A, load L1, accumulate more into A, save A again
+  onto the same path, load L2, L2 saves back onto the file it came from, the older L1 saves onto it, a loaded object accumulates
+  and saves, two objects loaded from one file ... After EVERY operation EVERY live object must still apply() exactly like a twin
+  with the same history of accumulate calls that never touched a file ("loaded again ... give an apply() identical to the
+  original's" -- the original as it was when it saved; what somebody writes to the path LATER is not part of what was loaded),
+  every save must succeed and leave the saver's statistics in the file ("Saving is repeatable: saving again to an existing file
+  of any of these kinds succeeds"; quantifier: "sequences of save calls on the same path"), for every target kind. The script
+  runs in a child process because an object that still refers to the file it was loaded from can take the interpreter down when
+  the file is rewritten: a child killed by a signal (or hanging) during a save / load / apply is a failure of
+  C17.save_raises / C17.reload_raises / C17.apply_identical for the operation in progress.
+
 "any accumulated data" includes coefficients that are CONSTANT over everything accumulated (a floored log-energy
 log(1e-10), a padding value): data kinds const_col / const_col32 (some columns constant, float64 / float32 features)
 and all_const / all_const32 (every column constant). Their sufficient statistics sit on the edge E[x^2] == E[x]^2
 up to rounding (either sign); apply() warns "0 variance" and uses variance 1 -- the reloaded object must do exactly
 the same (the warning is silenced locally), on every target kind and for frame counts such as 50 / 100 / 333.
 """
+import json
 import os
 import shutil
+import signal
+import subprocess
+import sys
 import tempfile
 import warnings
 
@@ -386,6 +402,358 @@ def check_no_stats(case, tmpdir, post):
     return [("C17.no_stats_valueerror", "save with no statistics returned normally")]
 
 
+
+# ---------------------------------------------------------------------------------------------- live histories
+LIVE_MARK = "@@C17LIVE "
+LIVE_DEF_KINDS = ("positive", "negative", "mixed")
+
+
+def _live_emit(obj):
+    sys.stdout.write(LIVE_MARK + json.dumps(_common.jsonable(obj)) + "\n")
+    sys.stdout.flush()
+
+
+def _live_twin(post, F, seed, hist, norm_var):
+    """The 'original': an object with the same history of accumulate calls that never saw a file."""
+    tw = post.Standardize(norm_var=norm_var)
+    for data, T, acc, salt in hist:
+        accumulate(tw, make_data(data, T, F, seed, salt), acc)
+    return tw
+
+
+def _live_rows(F, seed, hist):
+    return np.concatenate([make_data(d, T, F, seed, salt).astype(np.float64) for d, T, _, salt in hist], axis=0)
+
+
+class _Fails(list):
+    """list of (clause, message) that also reports every entry as soon as it is found (a later operation may kill the process)"""
+
+    def __init__(self, report=None):
+        list.__init__(self)
+        self.report = report
+
+    def append(self, item):
+        list.append(self, item)
+        if self.report:
+            self.report(item)
+
+
+def live_script(case, tmpdir, post, progress=None, report=None):
+    """Run one live history. -> (fails, info). `progress(opidx, stage, text)` is called before everything that touches the
+    real code, so that a parent process knows what was going on if this process dies."""
+    fails = _Fails(report)
+    info = {"worst_apply": 0.0, "worst_file": 0.0, "saves": 0, "checks": 0}
+    tname, suffix, key, compress = TARGET_BY_NAME[case["target"]]
+    seed, F = int(case["seed"]), int(case["F"])
+    path = os.path.join(tmpdir, "live_%s%s" % (case["target"], suffix))
+    if os.path.exists(path):
+        os.remove(path)
+    kind_of_file = {".npy": ".npy", ".npz": ".npz"}.get(suffix, "raw binary")
+    objs = {}        # name -> dict(std, hist, norm_var, origin)
+    entries = {}     # .npz: what numpy's reader saw in the archive after the last save
+    on_path = {}     # entry key ("" unless .npz) -> (hist, opidx of the save) of what our saves put there
+    last_key = [None]
+    twins = {}
+    fresh = fresh_inputs(F, seed, case.get("fresh", "negative"))[:3]
+    say = progress or (lambda *a: None)
+
+    def check_all(opidx, what):
+        for name in sorted(objs):
+            o = objs[name]
+            say(opidx, "check", "apply() of %s (%s) after %s" % (name, o["origin"], what))
+            tkey = (tuple(o["hist"]), o["norm_var"])
+            if tkey not in twins:  # the twin's outputs depend on the history only; the twin never sees the path
+                tw = _live_twin(post, F, seed, o["hist"], o["norm_var"])
+                with warnings.catch_warnings():
+                    warnings.simplefilter("ignore")
+                    twins[tkey] = [tw.apply(feats, axis=axis) for _, feats, axis in fresh]
+            for (fname, feats, axis), want in zip(fresh, twins[tkey]):
+                try:
+                    with warnings.catch_warnings():
+                        warnings.simplefilter("ignore")
+                        got = o["std"].apply(feats, axis=axis)
+                except Exception as e:  # noqa
+                    fails.append(("C17.apply_identical", "after op %d (%s): %s (%s).apply(%s) raised %s: %s" % (opidx, what, name, o["origin"], fname, type(e).__name__, e)))
+                    break
+                info["checks"] += 1
+                sl = rel_slack(np.asarray(got), np.asarray(want))
+                if np.asarray(got).dtype != np.asarray(want).dtype:
+                    sl = float("inf")
+                info["worst_apply"] = max(info["worst_apply"], sl)
+                if not sl <= 1e-12:
+                    fails.append(("C17.apply_identical", "after op %d (%s): %s (%s) no longer applies the transform of its own history %s -- apply(%s) differs by %.3g relative "
+                                  "from an object with the same accumulate calls that never touched the %s file" % (
+                                      opidx, what, name, o["origin"], [(d, T) for d, T, _, _ in o["hist"]], fname, sl, kind_of_file)))
+                    break
+                if fname == "matrix" and all(d in LIVE_DEF_KINDS for d, _, _, _ in o["hist"]):
+                    rows = _live_rows(F, seed, o["hist"])
+                    sd = rows.std(axis=0)
+                    if rows.shape[0] >= 8 and np.all(sd > 1e-3):
+                        ref = feats.astype(np.float64) - rows.mean(axis=0)
+                        if o["norm_var"]:
+                            ref = ref / sd
+                        if not np.allclose(got, ref, rtol=1e-6, atol=1e-6):
+                            fails.append(("C17.apply_definition", "after op %d (%s): %s (%s) differs from (x-mean)/std of its history by %.3g" % (
+                                opidx, what, name, o["origin"], float(np.max(np.abs(got - ref))))))
+                            break
+
+    for opidx, op in enumerate(case["ops"]):
+        if len(fails) >= 4:
+            break
+        kind, name = op["op"], op["obj"]
+        if kind in ("new", "acc"):
+            salt = "live%d" % opidx
+            x = make_data(op["data"], int(op["T"]), F, seed, salt)
+            acc = op.get("acc", "whole")
+            if kind == "new":
+                objs[name] = dict(std=post.Standardize(norm_var=op.get("norm_var", True)), hist=[], norm_var=op.get("norm_var", True), origin="built in memory, never loaded")
+            o = objs[name]
+            what = "%s accumulates %d more %s vectors" % (name, x.shape[0], op["data"])
+            say(opidx, "acc", what)
+            try:
+                with warnings.catch_warnings():
+                    warnings.simplefilter("ignore")
+                    accumulate(o["std"], x, acc)
+            except Exception as e:  # noqa
+                fails.append(("C17.apply_identical", "op %d: %s (%s) raised %s: %s" % (opidx, what, o["origin"], type(e).__name__, e)))
+                break
+            o["hist"] = o["hist"] + [(op["data"], int(op["T"]), acc, salt)]
+        elif kind == "save":
+            o = objs[name]
+            kw = {}
+            if suffix == ".npz":
+                kw = dict(key=key, compress=compress)
+                ow = op.get("overwrite", case.get("overwrite"))
+                if ow is not None:
+                    kw["overwrite"] = bool(ow)
+            what = "%s (%s) saves to the %s %s file%s" % (name, o["origin"], "existing" if os.path.exists(path) else "fresh", kind_of_file, (" " + str(kw)) if kw else "")
+            say(opidx, "save", what)
+            try:
+                with warnings.catch_warnings():
+                    warnings.simplefilter("ignore")
+                    o["std"].save(path, **kw)
+            except Exception as e:  # noqa
+                fails.append(("C17.save_raises", "op %d: %s raised %s: %s" % (opidx, what, type(e).__name__, e)))
+                break
+            info["saves"] += 1
+            want = stats_of(_live_rows(F, seed, o["hist"]))
+            try:
+                if suffix == ".npy":
+                    got, used = np.load(path), ""
+                elif suffix == ".npz":
+                    with np.load(path) as arch:
+                        now = {k: arch[k] for k in arch.files}
+                    # either every other entry was kept (statistics under `key` / the first unused arr_k) or none was
+                    used_keep = key if key is not None else first_unused(entries)
+                    used_drop = key if key is not None else "arr_0"
+                    if set(now) == set(entries) | {used_keep} and all(same_array(now[k], entries[k]) for k in entries if k != used_keep):
+                        used = used_keep
+                    elif set(now) == {used_drop}:
+                        used = used_drop
+                        on_path.clear()
+                    else:
+                        fails.append(("C17.npz_key_entry", "op %d: %s: archive had %s, now has %s: neither all other entries kept unchanged (+ %r) nor all dropped (only %r)" % (
+                            opidx, what, sorted(entries), sorted(now), used_keep, used_drop)))
+                        break
+                    got, entries = now[used], now
+                else:
+                    got, used = np.fromfile(path, dtype=np.float64), ""
+                    if got.size != want.size:
+                        fails.append(("C17.file_contents", "op %d: %s: raw file holds %d float64, expected %d" % (opidx, what, got.size, want.size)))
+                        break
+                    got = got.reshape(want.shape)
+            except Exception as e:  # noqa
+                fails.append(("C17.file_contents", "op %d: %s: numpy's own reader failed: %s: %s" % (opidx, what, type(e).__name__, e)))
+                break
+            if got.dtype != np.float64 or got.shape != want.shape:
+                fails.append(("C17.file_contents", "op %d: %s: stored %s %s, expected float64 %s" % (opidx, what, got.dtype, got.shape, want.shape)))
+                break
+            scale = np.maximum(np.abs(want), np.abs(want).max(axis=1, keepdims=True) * 1e-6 + 1e-300)
+            sl = float(np.max(np.abs(got - want) / scale))
+            info["worst_file"] = max(info["worst_file"], sl)
+            if not sl <= 1e-9:
+                fails.append(("C17.file_contents", "op %d: %s: the file does not hold the saver's statistics (off by %.3g relative)" % (opidx, what, sl)))
+                break
+            on_path[used] = (list(o["hist"]), opidx)
+            last_key[0] = used
+        elif kind == "load":
+            used = last_key[0]
+            if used is None or used not in on_path:
+                continue  # nothing of ours on the path (script error): not an executed operation
+            rkw = {}
+            if suffix == ".npz" and not (used == "arr_0" and key is None):
+                rkw["key"] = used
+            if suffix not in (".npy", ".npz"):
+                rkw["force_as"] = "file"
+            hist, saved_at = on_path[used]
+            what = "%s = Standardize(%r%s)" % (name, os.path.basename(path), "".join(", %s=%r" % kv for kv in sorted(rkw.items())))
+            say(opidx, "load", what)
+            try:
+                with warnings.catch_warnings():
+                    warnings.simplefilter("ignore")
+                    std = post.Standardize(rfilename=path, norm_var=op.get("norm_var", True), **rkw)
+            except Exception as e:  # noqa
+                fails.append(("C17.reload_raises", "op %d: %s raised %s: %s" % (opidx, what, type(e).__name__, e)))
+                break
+            objs[name] = dict(std=std, hist=list(hist), norm_var=op.get("norm_var", True), origin="loaded at op %d from what op %d saved" % (opidx, saved_at))
+        else:
+            raise ValueError(kind)
+        check_all(opidx, what)
+    return fails, info
+
+
+def _live_child_main():
+    """Child side: cases + tmpdir as JSON on stdin; one marked JSON line per progress point / finished case on stdout."""
+    _common.use_repo()
+    from pydrobert.speech import post
+
+    req = json.load(sys.stdin)
+    for i, case in enumerate(req["cases"]):
+        try:
+            fails, info = live_script(case, req["tmpdir"], post, progress=lambda opidx, stage, text, i=i: _live_emit({"i": i, "op": opidx, "stage": stage, "text": text}),
+                                      report=lambda f, i=i: _live_emit({"i": i, "fail": list(f)}))
+            fails = list(fails)
+        except Exception as e:  # noqa  (a defect of the stand-in itself, or of numpy's readers)
+            import traceback
+
+            fails, info = [("C17.apply_identical", "live script aborted: %s: %s | %s" % (type(e).__name__, e, traceback.format_exc()[-300:]))], {}
+        _live_emit({"i": i, "done": True, "fails": fails, "info": info})
+
+
+STAGE_CLAUSE = {"save": "C17.save_raises", "load": "C17.reload_raises", "check": "C17.apply_identical", "acc": "C17.apply_identical"}
+
+
+def run_live(cases, tmpdir, timeout_s=120.0):
+    """Parent side: run the live cases in child interpreters. -> list of (case, fails, info), one per case. A child that is
+    killed by a signal, exits abnormally or hangs fails the case it was working on; the remaining cases go to a new child."""
+    out = []
+    start = 0
+    here = os.path.dirname(os.path.dirname(os.path.abspath(__file__)))
+    env = dict(os.environ, PYTHONPATH=here + os.pathsep + os.environ.get("PYTHONPATH", ""), PYTHONDONTWRITEBYTECODE="1")
+    while start < len(cases):
+        batch = cases[start:]
+        proc = subprocess.Popen([sys.executable, "-c", "from rtc import c17; c17._live_child_main()"], cwd=here, env=env,
+                                stdin=subprocess.PIPE, stdout=subprocess.PIPE, stderr=subprocess.PIPE)
+        try:
+            so, se = proc.communicate(json.dumps({"cases": batch, "tmpdir": tmpdir}).encode(), timeout=timeout_s)
+            hung = False
+        except subprocess.TimeoutExpired:
+            proc.kill()
+            so, se = proc.communicate()
+            hung = True
+        done, last, early = {}, {}, {}
+        for line in so.decode("utf-8", "replace").splitlines():
+            if not line.startswith(LIVE_MARK):
+                continue
+            try:
+                rec = json.loads(line[len(LIVE_MARK):])
+            except ValueError:
+                continue
+            if rec.get("done"):
+                done[rec["i"]] = rec
+            elif "fail" in rec:
+                early.setdefault(rec["i"], []).append(tuple(rec["fail"]))
+            else:
+                last[rec["i"]] = rec
+        n_ok = 0
+        while n_ok in done:
+            rec = done[n_ok]
+            out.append((batch[n_ok], [tuple(f) for f in rec["fails"]], rec.get("info", {})))
+            n_ok += 1
+        if n_ok == len(batch):
+            break
+        # the child stopped while working on batch[n_ok]
+        rec = last.get(n_ok)
+        rc = proc.returncode
+        if hung:
+            how = "did not finish within %.0f s and was killed" % timeout_s
+        elif rc is not None and rc < 0:
+            try:
+                how = "was killed by signal %d (%s)" % (-rc, signal.Signals(-rc).name)
+            except ValueError:
+                how = "was killed by signal %d" % -rc
+        else:
+            how = "exited with status %s (%s)" % (rc, se.decode("utf-8", "replace").strip().splitlines()[-1:] or "")
+        if rec is None:
+            fails = [("C17.apply_identical", "the child interpreter %s before the first operation of the history" % how)]
+        else:
+            fails = [(STAGE_CLAUSE.get(rec["stage"], "C17.apply_identical"), "op %d: during %s the interpreter %s" % (rec["op"], rec["text"], how))]
+        out.append((batch[n_ok], early.get(n_ok, []) + fails, {}))  # what the history had already shown, then the death
+        start += n_ok + 1
+    return out
+
+
+def _live_core_scripts():
+    """The histories every target kind goes through (names: A, B never loaded; L* loaded from the path)."""
+    s1 = [  # save, load, accumulate more into the saver, save again onto the same path; loaded objects save back
+        dict(op="new", obj="A", data="@", T=20),
+        dict(op="save", obj="A"),
+        dict(op="load", obj="L1"),
+        dict(op="acc", obj="A", data="positive", T=9, acc="split"),
+        dict(op="save", obj="A"),              # L1 must keep the transform of the FIRST save
+        dict(op="load", obj="L2"),
+        dict(op="save", obj="L2"),             # a loaded object saves back onto the file it came from
+        dict(op="load", obj="L3"),
+        dict(op="save", obj="L1"),             # the older loaded object saves onto the path
+        dict(op="load", obj="L4"),
+        dict(op="acc", obj="L4", data="mixed", T=5, acc="rows"),
+        dict(op="save", obj="L4"),             # loaded, accumulated on top, saved back
+        dict(op="load", obj="L5", norm_var=False),
+    ]
+    s2 = [  # two objects loaded from one file; another object's statistics land on the path in between
+        dict(op="new", obj="A", data="@", T=12, acc="rows", norm_var=False),
+        dict(op="save", obj="A"),
+        dict(op="load", obj="L1", norm_var=False),
+        dict(op="load", obj="L2"),
+        dict(op="new", obj="B", data="mixed", T=30),
+        dict(op="save", obj="B"),              # somebody else's statistics on the same path
+        dict(op="save", obj="L1"),             # and back
+        dict(op="acc", obj="L2", data="@", T=8),
+        dict(op="save", obj="L2"),
+        dict(op="load", obj="L3"),
+        dict(op="save", obj="A"),
+        dict(op="save", obj="A"),              # the same object twice in a row
+        dict(op="load", obj="L4"),
+    ]
+    return [s1, s2]
+
+
+def enumerate_live(tier: str, seed: int):
+    quick = tier == "quick"
+    for si, script in enumerate(_live_core_scripts()):
+        for data in ("negative", "float32_negative") if quick else ("negative", "float32_negative", "mixed", "large", "const_col"):
+            for t in sorted(TARGETS, key=lambda t: not t[0].startswith("raw")):
+                for ow in ((None, True, False) if t[1] == ".npz" else (None,)):
+                    ops = [dict(o, data=data) if o.get("data") == "@" else dict(o) for o in script]
+                    case = dict(kind="live", target=t[0], seed=seed, F=3 + si, ops=ops)
+                    if ow is not None:
+                        case["overwrite"] = ow
+                    yield case
+    rng = _common.make_rng(seed, "c17live")
+    for i in range(60 if quick else 1500):
+        t = TARGETS[int(rng.integers(0, len(TARGETS)))]
+        ops = [dict(op="new", obj="A", data=DATA_KINDS[int(rng.integers(0, len(DATA_KINDS)))], T=int(rng.integers(1, 30)),
+                    acc=("whole", "split", "rows", "axis0")[int(rng.integers(0, 4))], norm_var=bool(rng.integers(0, 2))),
+               dict(op="save", obj="A")]
+        names, loaded = ["A"], 0
+        for j in range(int(rng.integers(3, 12))):
+            r = rng.random()
+            who = names[int(rng.integers(0, len(names)))]
+            if r < 0.35:
+                op = dict(op="save", obj=who)
+                if t[1] == ".npz" and rng.random() < 0.4:
+                    op["overwrite"] = bool(rng.integers(0, 2))
+            elif r < 0.65 and len(names) < 5:
+                loaded += 1
+                op = dict(op="load", obj="L%d" % loaded, norm_var=bool(rng.integers(0, 2)))
+                names.append(op["obj"])
+            else:
+                op = dict(op="acc", obj=who, data=DATA_KINDS[int(rng.integers(0, 8))], T=int(rng.integers(1, 20)),
+                          acc=("whole", "split", "rows", "axis0")[int(rng.integers(0, 4))])
+            ops.append(op)
+        yield dict(kind="live", target=t[0], seed=int(rng.integers(0, 2 ** 31)), F=int(rng.integers(1, 14)), ops=ops)
+
+
 # ----------------------------------------------------------------------------------------------
 def enumerate_cases(tier: str, seed: int):
     quick = tier == "quick"
@@ -464,7 +832,19 @@ def run(tier: str, seed: int) -> dict:
     tmpdir = tempfile.mkdtemp(prefix="c17_")
     ctx = Ctx()
     kinds = {}
+    live = {"cases": 0, "saves": 0, "checks": 0}
     try:
+        # live histories first (child interpreters): the only cases in which an object outlives a later save on its path
+        for case, fails, info in run_live(list(enumerate_live(tier, seed)), tmpdir, timeout_s=60.0 if tier == "quick" else 300.0):
+            col.case(case, nontrivial=True, sample=case if kinds.get("live", 0) == 0 else None)
+            kinds["live"] = kinds.get("live", 0) + 1
+            ctx.worst_apply = max(ctx.worst_apply, float(info.get("worst_apply", 0.0)))
+            ctx.worst_file = max(ctx.worst_file, float(info.get("worst_file", 0.0)))
+            live["cases"] += 1
+            live["saves"] += int(info.get("saves", 0))
+            live["checks"] += int(info.get("checks", 0))
+            for clause, msg in fails:
+                col.fail(clause, case, msg)
         for case in enumerate_cases(tier, seed):
             if col.out_of_time() or col.too_many_failures():
                 col.note("stopped early: " + ("time budget" if col.out_of_time() else "failure cap"))
@@ -478,6 +858,8 @@ def run(tier: str, seed: int) -> dict:
     finally:
         shutil.rmtree(tmpdir, ignore_errors=True)
     col.note("cases per kind: %s; %d successful save calls inspected and reloaded" % (kinds, ctx.saves))
+    col.note("live histories: %d scripts run in child interpreters, %d saves onto the one path, %d apply() comparisons of live objects with their never-saved twins "
+             "(after every operation, every live object)" % (live["cases"], live["saves"], live["checks"]))
     col.note("worst relative difference reloaded.apply vs original.apply: %.3g (tolerance 1e-12); worst stored-statistics "
              "difference from the definition: %.3g (tolerance 1e-9)" % (ctx.worst_apply, ctx.worst_file))
     direction = {str(k): sorted(v) for k, v in ctx.kept_by.items()}
@@ -488,14 +870,19 @@ def run(tier: str, seed: int) -> dict:
                  [k for k, v in ctx.kept_by.items() if v == {True}],
                  [k for k, v in ctx.kept_by.items() if v == {False}]))
     return col.result(
-        rule="one case = one history on one path: optional pre-existing file written by numpy, then 1..4 Standardize.save calls, each "
+        rule="kind live = a script of new/acc/save/load operations over up to 5 named Standardize objects on ONE path, run in a child interpreter (2 fixed scripts x every "
+             "target x data kinds x overwrite None/True/False, then random scripts of 5..13 operations): saver keeps accumulating and saves again while objects loaded earlier "
+             "are alive, loaded objects save back onto the file they came from, two objects loaded from one file, ...; after every operation every live object is compared "
+             "with a twin of the same accumulate history that never touched a file, every save is inspected with numpy's reader; a child killed by a signal fails the "
+             "operation in progress. Other kinds: one case = one history on one path: optional pre-existing file written by numpy, then 1..4 Standardize.save calls, each "
              "followed by an own-reader inspection of the file, a reload through Standardize(rfilename=...) and 5 apply() comparisons "
              "(flag_pair = the same history under overwrite True and False; no_stats = the ValueError clause). Every case is non-trivial "
              "(at least one vector accumulated, or the error clause)",
         bound="targets: .npy, .npz x key{None,'k','stats/x',...} x compress, raw with suffixes .bin/.stats/.cmvn.dat/none; data: 12 kinds "
               "(positive, negative log-energy-like, mixed, float32, float32 negative, 1e6 / 1e5 / 1e-4 scale, some / all coefficients constant "
               "(zero variance; 8 fixed values incl. log(1e-10) + seeded ones) as float64 / float32, T in {20,50,100,333} on every target); F in {1,2,3,4,13,40} and random <20; "
-              "T in 1..50; 4 accumulate histories; 4 kinds of pre-existing archive; histories of up to 4 saves",
+              "T in 1..50; 4 accumulate histories; 4 kinds of pre-existing archive; histories of up to 4 saves; live scripts of up to 13 operations / 5 live objects, F <= 13 "
+              "(kaldi tables are not among the targets the statement lists and are not exercised)",
         assumptions=["A-IO-CONTAINER", "A-NP-RED", "A-REAL"],
     )
 
@@ -509,7 +896,10 @@ def replay(case: dict):
         case = dict(case)
         case.setdefault("kind", "history")
         case.setdefault("seed", 0)
-        fails = check_history(case, tmpdir, post, Ctx())
+        if case["kind"] == "live":
+            fails = run_live([case], tmpdir)[0][1]
+        else:
+            fails = check_history(case, tmpdir, post, Ctx())
     finally:
         shutil.rmtree(tmpdir, ignore_errors=True)
     if fails:
